@@ -1962,6 +1962,7 @@ pub fn step_label(ev: Option<Ev>, obs: &[Obs]) -> String {
         Some(Ev::FlushDone) => "flush-done".into(),
         Some(Ev::Disconnect(_)) => "worker-stopped".into(),
         Some(Ev::ClientClose(_)) => "client-close".into(),
+        Some(Ev::WorkerQuery) => "worker-query".into(),
     }
 }
 
